@@ -45,6 +45,7 @@ func run(r *ev.Run) {
 	r.Assume("plaintext blobs shorter than 12 bytes are scanned for by their refs only; a 12-byte window of any plaintext occurring by chance in ciphertext has probability < 2^-50 per run")
 	r.Assume("the local meta index (sorted.KeyValue) is not a wrapped store: it legitimately holds plaintext refs and is not scanned; it is discarded at every restart")
 	r.Assume("waiting for compaction goroutines uses observed events (meta-store writes, index lookups) and the documented trigger count; a timeout is inconclusive, never a verdict")
+	r.Assume("multi-batch compaction histories start from wrapped stores PRELOADED by the harness (no store instance running) with ciphertext and packed meta blobs it encrypts itself for the recipient of the store's key file, in the documented format (version byte 2 + age v1 stream; meta: header line + sorted 'plain/size/ciphertext' lines); a preloaded blob counts as acknowledged only after the store created over that state has served it (else the case is inconclusive); line counts per meta blob and the 10,000-line limit are mirrored only to shape the state and to know how many packers to wait for")
 	root := ev.Scratch("c11")
 	defer os.RemoveAll(root)
 
